@@ -231,7 +231,12 @@ def reference_instants(cfg, seed):
     w.h.at(0.0, w.act, dict(kind="boot"))
     horizon = cfg["init"][1] + 2 * cfg["cyc"] + (cfg["refresh"] or 1.0) + 1.5
     w.h.run(horizon)
-    ts = sorted({round(x[0], 12) for x in w.net.log})
+    ts = {round(x[0], 12) for x in w.net.log}
+    if cfg["ct"]:
+        # a datagram leaves one collection timeout after the timer that queued its first entry: that deadline, and an
+        # instant inside the open collection window, are instants of the fault-free run as well
+        ts |= {round(t - cfg["ct"], 12) for t in ts if t - cfg["ct"] > 0} | {round(t - cfg["ct"] / 2, 12) for t in ts if t - cfg["ct"] > 0}
+    ts = sorted(ts)
     w.h.close()
     return ts, horizon
 
